@@ -164,13 +164,15 @@ PROPERTIES.update({
     },
     "C38": {
         "level": "proof",
-        "verus": [("u10_changes", ["push", "new", "extend", "has_hash", "has_actor_seq", "is_empty", "transaction_args"])],
+        "verus": [("u10_changes", ["push", "new", "extend", "has_hash", "has_actor_seq", "is_empty", "transaction_args", "apply_changes_batch_log_patches"])],
         "kani": [],
-        "not_under_contract": ["ChangeQueue::remove_actor_branch_from (closures over HashMap/VecDeque)", "ChangeQueue::pop_topo_sorted_ready", "apply_changes_batch_log_patches loop", "ChangeGraph::add_changes seq assertion", "Automerge::seq_for_actor (assumed)"],
+        "not_under_contract": ["ChangeQueue::remove_actor_branch_from (closures over HashMap/VecDeque; assumed to keep the index invariant)", "ChangeQueue::pop_topo_sorted_ready (assumed to keep the index invariant)", "the `filter` adapter at the head of apply_changes_batch_log_patches (trusted wrapper matched on its exact text)", "BatchApply::apply", "ChangeGraph::add_changes seq assertion", "Automerge::seq_for_actor (assumed)"],
         "trusted": ["std HashSet as a mathematical set (assumed stub contracts)", "Change accessors (hash, actor_id, seq) as abstract fields"],
         "explanation": "Verus proves on the real ChangeBatch::push the index invariant (pairwise distinct (actor,seq), mirrored by both sets), rejection of a second change claiming a taken "
                        "(actor,seq) with the batch unchanged, and idempotence on equal hashes; ChangeQueue::has_actor_seq / has_hash against that invariant; Automerge::has_actor_seq == "
-                       "(seq <= highest applied seq of the actor); and that transaction_args drops the conflicting queued branch for exactly (actor, seq) before returning.",
+                       "(seq <= highest applied seq of the actor); on the real admission loop of Automerge::apply_changes_batch_log_patches that a batch is admitted only if none of its new changes claims an applied or queued "
+                       "(actor, seq), and that the loop establishes the precondition of ChangeQueue::extend (so the queue's index invariant is never broken there); "
+                       "and that transaction_args drops the conflicting queued branch for exactly (actor, seq) before returning.",
     },
     "C10": {
         "level": "proof",
